@@ -9,3 +9,5 @@ let int_of_z = function Z0 -> 0 | Zpos p -> int_of_pos p | Zneg p -> - (int_of_p
 let ints_of_line l = List.filter_map (fun s -> if s = "" then None else Some (int_of_string s)) (String.split_on_char ' ' l)
 let rec take n l = if n = 0 then ([], l) else match l with [] -> failwith "short" | x :: t -> let (a, b) = take (n - 1) t in (x :: a, b)
 let iter_lines f = try while true do f (input_line stdin) done with End_of_file -> ()
+let n_of_int n = if n = 0 then N0 else Npos (pos_of_int n)
+let int_of_n = function N0 -> 0 | Npos p -> int_of_pos p
